@@ -60,6 +60,8 @@ inline void reg_ctors() {
   C("EllipticFunction4", 4, [](const double* p) { EllipticFunction e(p[0], p[1], p[2], p[3]); built() = true; (void)e.F(0.7); (void)e.E(0.7); });
 }
 
+static Reg r_ctorclass("c13_ctorclass", [](const Args&) { emit("-"); });
+static Reg r_ctorcount("c13_ctorcount", [](const Args&) { emit("-"); });
 inline std::map<std::string, int>& ctor_hangs() { static std::map<std::string, int> h; return h; }
 static Reg r_ctor("c13_ctor", [](const Args& a) {
   reg_ctors();
@@ -142,6 +144,11 @@ inline void gen_ctor(Rng& r, bool thorough) {
     {"GeodesicLine", {3, 3, 3}, {40, 10, 30}}, {"GeodesicLineExact", {3, 3, 3}, {40, 10, 30}}, {"LocalCartesian", {3, 3, 5}, {40, 10, 100}}, {"CassiniSoldner", {3, 3}, {40, 10}},
     {"AuxAngle", {4, 4}, {0.6, 0.8}}, {"Accumulator", {5}, {1.5}}, {"SphericalHarmonicRadius", {0}, {6371e3}},
   };
+  // every constructor class the harness drives must be a class of the Lean list `ErrContract.ctorTable` with the same number of
+  // parameters, and there must be no further class there (verdicts in Corr/C13.lean)
+  stratum("table-crosscheck");
+  for (auto& k : ks) run("c13_ctorclass", {k.n, std::to_string(k.kinds.size())});
+  run("c13_ctorcount", {std::to_string(ks.size())});
   int n = thorough ? 60 : 14;
   for (auto& k : ks) {
     auto emitc = [&](const std::vector<double>& p) {
